@@ -5,9 +5,9 @@ import itertools
 import re
 from collections import deque
 
-from .. import observe, grammar as grammar_mod, siblings, noisy, corpus, probe
+from .. import observe, grammar as grammar_mod, siblings, noisy, corpus, probe, thresholds
 from ..common import h64, short
-from .base import rng, shards, apply_parse_monitors, cover_transitions
+from .base import rng, shards, apply_parse_monitors, cover_transitions, ReusedEnv
 from . import doccheck
 
 from gherkin.parser import Parser, ParserContext
@@ -30,14 +30,17 @@ RULE = ("(1) observed table: for every state 0..42 (34 = end excluded) x 14 toke
         "that a step depends only on state, kind and look-ahead outcome); (3) that assumption is tested through the real "
         "Parser.parse: all token-kind sequences up to length L with stub scanner+matcher (events, acceptance, error lines, "
         "expected sets vs the automaton, error recovery and 11-cap included) and all sequences of real lines up to length L' "
-        "with the real matcher vs the table simulator; (4) derivation monitor on corpus and generated documents.  Distinct = "
+        "with the real matcher vs the table simulator; (4) derivation monitor on corpus and generated documents, acceptance = "
+        "sentence-hood of the intended line kinds; (5) the same on Parser/TokenMatcher objects used before (perturbing predecessors), "
+        "on documents with one dimension of size 9..1025, and on look-ahead windows of 15..257 tokens.  Distinct = "
         "the probed cell / the sequence.")
 ASSUMPTIONS = [
     "sibling parsers are data for the oracle; if they disagree among themselves the affected states make the run inconclusive",
     "the grammar automaton R1 is built from gherkin.berp only (never from parser.py)",
     "kind-level sequences: a line of kind K also matches #Other (every non-EOF line does), so it is free text where K is not expected",
 ]
-DECIDING = ["cells_probed", "bisimulation_checks", "kind_sequences", "text_sequences", "G4.evaluated"]
+DECIDING = ["cells_probed", "bisimulation_checks", "kind_sequences", "text_sequences", "G4.evaluated", "acceptance_compared",
+            "parses_on_reused_objects", "threshold_documents", "long_windows_probed"]
 
 
 # ------------------------------------------------------------------ stubs
@@ -419,6 +422,28 @@ def check_text_seq(idxs, M):
     cover_transitions(o, M)
 
 
+def check_doc_vs_grammar(R, o, M, case):
+    """A generated document (intended line kinds known): accepted exactly if the kinds are a sentence of the grammar,
+    and the nesting reported to the builder is the grammar's derivation of them."""
+    apply_parse_monitors(o, M, case, {"G4"})
+    cover_transitions(o, M)
+    acc, read_as, gev = grammar_mod.grammar_reading(observe.grammar(), R.kinds)
+    M.count("acceptance_compared")
+    if o.status == "crash":
+        return              # G1 (evaluated above) reports it
+    if acc != (o.status == "ok"):
+        M.violation("C02.acceptance", {"what": "document whose line kinds are %s sentence of the grammar was %s" % (
+            "a" if acc else "no", "accepted" if o.status == "ok" else "rejected"), "errors": o.err_messages()[:2]}, case)
+        return
+    if o.status == "ok":
+        real = [(e[0], e[1]) for e in o.log.events]
+        want = [(e[0], e[1]) for e in gev]
+        M.count("derivations_compared")
+        if real != want:
+            M.violation("C02.nesting", {"what": "builder events differ from the grammar's derivation of the document",
+                                        "real": real[:12], "grammar": want[:12]}, case)
+
+
 def plan(tier, seed):
     q = tier == "quick"
     specs = [{"family": "table", "seed": seed, "n": 1}]
@@ -436,6 +461,11 @@ def plan(tier, seed):
     for a in range(len(TEXT_LINES)):
         specs.append({"family": "text", "first": a, "L": LT, "seed": seed, "n": 1})
     specs += shards("docs", 600 if q else 30000, 150 if q else 3000, seed)
+    specs += shards("reused", 1600 if q else 60000, 400 if q else 4000, seed)
+    for part in range(8):
+        specs.append({"family": "thresholds", "part": part, "parts": 8, "tier": tier, "seed": seed, "n": 1})
+    for first in ("TagLine", "Comment", "Empty"):
+        specs.append({"family": "long_windows", "first": first, "seed": seed, "n": 1})
     specs.append({"family": "corpus", "seed": seed, "n": 1})
     specs.append({"family": "w0", "seed": seed, "n": 1})
     return specs
@@ -517,18 +547,60 @@ def run_shard(spec, M):
             R = doccheck.make_doc(spec["seed"], "C02", i)
             o = observe.parse_observed(R.text)
             M.case(h64(R.text))
-            case = {"kind": "doc", "text": R.text}
-            apply_parse_monitors(o, M, case, {"G4"})
-            cover_transitions(o, M)
-            if o.status == "ok":
-                # nesting reported to the builder = the grammar's derivation of the intended line kinds
-                acc, read_as, gev = grammar_mod.grammar_reading(observe.grammar(), R.kinds)
-                real = [(e[0], e[1]) for e in o.log.events]
-                want = [(e[0], e[1]) for e in gev]
-                M.count("derivations_compared")
-                if acc and real != want:
-                    M.violation("C02.nesting", {"what": "builder events differ from the grammar's derivation of the document",
-                                                "real": real[:12], "grammar": want[:12]}, case)
+            check_doc_vs_grammar(R, o, M, {"kind": "doc", "text": R.text})
+    elif fam == "reused":
+        # the same two comparisons on objects that have parsed other documents before (accepted, rejected, abandoned
+        # inside a doc string or while look-ahead tokens were buffered): acceptance is a function of the document alone
+        env = ReusedEnv(rng(spec["seed"], ID, "reuse", spec["shard"]))
+        env.spec = spec
+        for i in range(spec["start"], spec["start"] + spec["n"]):
+            r = rng(spec["seed"], ID, "reused", i)
+            if i % 2:
+                R = doccheck.make_doc(spec["seed"], "C02r", i)
+                o = env.parse(R.text, M)
+                M.case(h64(R.text))
+                check_doc_vs_grammar(R, o, M, {"kind": "shard", "spec": spec, "text": R.text})
+            else:
+                L = noisy.gen(r, 24)
+                text = noisy.text_of(L)
+                stop = r.random() < 0.3
+                sim = noisy.simulate(L, stop)
+                o = env.parse(text, M, stop=stop)
+                M.case(h64(text))
+                M.count("text_sequences")
+                case = {"kind": "shard", "spec": spec, "text": text}
+                real_ev = [(e[0], e[1]) for e in o.log.events] if o.log is not None else None
+                if (o.status == "ok") != sim["accepted"] or real_ev != sim["events"] or o.err_messages() != sim["errors"]:
+                    M.violation("C02.text", {"what": "parse of a line sequence on used Parser/TokenMatcher objects differs from the table simulator (acceptance/events/errors)",
+                                             "text": short(text, 300), "real": [o.status, o.err_messages()[:2]], "sim": [sim["accepted"], sim["errors"][:2]]}, case)
+                apply_parse_monitors(o, M, case, {"G4"})
+                cover_transitions(o, M)
+    elif fam == "thresholds":
+        # one dimension of the document has size n around 10, 32, 64, 100, 128, 256, 512, 1000, 1024 (look-ahead windows,
+        # tag lines, comments, blank lines, steps, rows, scenarios, rules, ...): still a sentence, still the same derivation
+        for dim, n in thresholds.cases(spec["tier"], spec["part"], spec["parts"]):
+            R = thresholds.build(dim, n)
+            o = observe.parse_observed(R.text)
+            M.case(h64(["threshold", dim, n]))
+            M.count("threshold_documents")
+            M.hist("threshold_dims", dim)
+            check_doc_vs_grammar(R, o, M, {"kind": "threshold", "dim": dim, "n": n})
+    elif fam == "long_windows":
+        # look-ahead windows of 31..257 tag/comment/blank tokens (stub matcher: kinds only) before each kind of terminator
+        prefixes = [["FeatureLine", "ScenarioLine", "StepLine"], ["FeatureLine", "ScenarioLine", "ExamplesLine", "TableRow"],
+                    ["FeatureLine", "RuleLine", "ScenarioLine", "StepLine", "TableRow"], ["FeatureLine", "BackgroundLine", "StepLine"]]
+        terms = [["ExamplesLine"], ["ScenarioLine"], ["RuleLine"], [], ["Other"]]
+        r = rng(spec["seed"], ID, "long_windows", spec["first"])
+        for n in (15, 16, 17, 31, 32, 33, 63, 64, 65, 99, 100, 101, 127, 128, 129, 255, 256, 257):
+            for variant in range(3):
+                if variant == 0:
+                    rest = [spec["first"]] * (n - 1)
+                else:
+                    rest = [r.choice(("TagLine", "Comment", "Empty")) for _ in range(n - 1)]
+                for pre in prefixes:
+                    for t in terms:
+                        M.count("long_windows_probed")
+                        check_kind_seq(pre + [spec["first"]] + rest + t, M)
     elif fam == "w0":
         from .base import run_repo_tests_under_monitors
         run_repo_tests_under_monitors(M, {"G4"})
@@ -548,6 +620,11 @@ def replay(case, M):
         check_kind_seq(case["kinds"], M)
     elif k == "text":
         check_text_seq(case["idxs"], M)
+    elif k == "shard":
+        run_shard(case["spec"], M)
+    elif k == "threshold":
+        R = thresholds.build(case["dim"], case["n"])
+        check_doc_vs_grammar(R, observe.parse_observed(R.text), M, case)
     else:
         o = observe.parse_observed(case["text"])
         apply_parse_monitors(o, M, case, {"G4"})
